@@ -151,8 +151,169 @@ fn stress(cfg: &Cfg, out: &mut Out) {
     let _ = cfg;
 }
 
+
+// ------------------------------------------------------------------ histories on one iterator
+// F = next(), B = next_back().  Shapes F^k B^* and B^k F^* ("reverse at any point of the
+// iteration") for every delimiter; every mixed history for char delimiters, where std's Split is
+// double-ended too (occurrences of a char cannot overlap, so the pieces form a deque).
+
+macro_rules! run_hist {
+    ($h:expr, $it:expr, $hist:expr) => {{
+        let h: &str = $h;
+        let mut it = $it;
+        let mut v: Vec<String> = Vec::new();
+        for &c in $hist.iter() {
+            let cp = it.copy();
+            let r = if c == b'F' { cp.next() } else { cp.next_back() };
+            match r {
+                Some((p, nit)) => {
+                    v.push(format!("({},{})", view_str(h, p), view_str(h, nit.remainder())));
+                    it = nit;
+                }
+                None => v.push("N".into()),
+            }
+        }
+        format!("[{}]", v.join(","))
+    }};
+}
+
+/// what std yields for the same history on `h.split(d)` (pieces and the not-yet-split remainder,
+/// computed from the consumed pieces); only meaningful when the pieces form a deque: histories of
+/// the shapes F^k B^* / B^k F^* are answered with split's pieces for the leading run and
+/// rsplit's / split's pieces of the remainder for the rest
+fn std_hist(h: &str, d: &str, hist: &[u8]) -> String {
+    let dl = d.len();
+    let mut lo = 0usize; // remainder = h[lo..hi] while not finished
+    let mut hi = h.len();
+    let mut finished = false;
+    let mut v: Vec<String> = Vec::new();
+    for &c in hist {
+        if finished {
+            v.push("N".into());
+            continue;
+        }
+        let r = &h[lo..hi];
+        if c == b'F' {
+            match r.find(d) {
+                Some(pos) => {
+                    let piece = (lo, pos);
+                    lo += pos + dl;
+                    v.push(format!("({},{})", show_view_ol(piece.0, piece.1), show_view_ol(lo, hi - lo)));
+                }
+                None => {
+                    v.push(format!("({},e)", show_view_ol(lo, hi - lo)));
+                    finished = true;
+                }
+            }
+        } else {
+            match r.rfind(d) {
+                Some(pos) => {
+                    let piece = (lo + pos + dl, hi - (lo + pos + dl));
+                    hi = lo + pos;
+                    v.push(format!("({},{})", show_view_ol(piece.0, piece.1), show_view_ol(lo, hi - lo)));
+                }
+                None => {
+                    v.push(format!("({},e)", show_view_ol(lo, hi - lo)));
+                    finished = true;
+                }
+            }
+        }
+    }
+    format!("[{}]", v.join(","))
+}
+
+fn flip(hist: &[u8]) -> Vec<u8> {
+    hist.iter().map(|&c| if c == b'F' { b'B' } else { b'F' }).collect()
+}
+
+fn hist_tag(hist: &[u8]) -> &'static str {
+    let f = hist.iter().filter(|&&c| c == b'F').count();
+    if f == 0 || f == hist.len() { "one-end" } else if hist.windows(2).filter(|w| w[0] != w[1]).count() == 1 { "reverse-midway" } else { "mixed" }
+}
+
+fn shaped_histories(npieces: usize) -> Vec<Vec<u8>> {
+    let mut v = Vec::new();
+    for k in 0..=npieces + 1 {
+        for (a, b) in [(b'F', b'B'), (b'B', b'F')] {
+            let mut hst = vec![a; k];
+            hst.extend(vec![b; npieces + 2 - k.min(npieces + 1)]);
+            v.push(hst);
+        }
+    }
+    v.sort();
+    v.dedup();
+    v
+}
+
+fn hist_str(out: &mut Out, h: &str, d: &str) {
+    if d.is_empty() {
+        return;
+    }
+    let np = h.split(d).count();
+    for hist in shaped_histories(np) {
+        let args = format!("{} {} {}", hex(h.as_bytes()), hex(d.as_bytes()), hex(&hist));
+        let i = catch(|| run_hist!(h, kstr::split(h, d), hist));
+        out.line("c06.hist", &args, &i, &std_hist(h, d, &hist), hist_tag(&hist));
+        let i = catch(|| run_hist!(h, kstr::rsplit(h, d), hist));
+        out.line("c06.rhist", &args, &i, &std_hist(h, d, &flip(&hist)), hist_tag(&hist));
+    }
+}
+
+fn hist_char(out: &mut Out, h: &str, c: char, all_mixed: bool) {
+    let mut buf = [0u8; 4];
+    let d: &str = c.encode_utf8(&mut buf);
+    let np = h.split(c).count();
+    let hists: Vec<Vec<u8>> = if all_mixed && np <= 5 { all_seqs(&[b'F', b'B'], np + 1).into_iter().filter(|s| s.len() == np + 1).collect() } else { shaped_histories(np) };
+    for hist in hists {
+        let args = format!("{} {} {}", hex(h.as_bytes()), c as u32, hex(&hist));
+        let i = catch(|| run_hist!(h, kstr::split(h, c), hist));
+        out.line("c06.histchar", &args, &i, &std_hist(h, d, &hist), hist_tag(&hist));
+        let i = catch(|| run_hist!(h, kstr::rsplit(h, c), hist));
+        out.line("c06.rhistchar", &args, &i, &std_hist(h, d, &flip(&hist)), hist_tag(&hist));
+    }
+}
+
+/// std's own double-ended `split(char)` as a cross-check of `std_hist` (pieces only)
+#[allow(dead_code)]
+fn std_de_pieces(h: &str, c: char, hist: &[u8]) -> Vec<Option<String>> {
+    let mut it = h.split(c);
+    hist.iter().map(|&x| if x == b'F' { it.next() } else { it.next_back() }.map(|p| view_str(h, p))).collect()
+}
+
+fn histories(cfg: &Cfg, out: &mut Out) {
+    for (h, d) in [("a,b", ","), (",a,,b,", ","), ("aaab", "aab"), ("aaa", "aa"), ("ababa", "aba"), ("", "a"), ("a", "a")] {
+        hist_str(out, h, d);
+    }
+    let alpha = ['a', 'b', 'é', '-'];
+    let hays = all_strings(&alpha, if cfg.thorough { 5 } else { 4 });
+    let delims = all_strings(&alpha, 2);
+    for h in &hays {
+        for d in &delims {
+            // every mixed history is compared with std only where the pieces form a deque for sure:
+            // one-char delimiters; longer ones get the reverse-at-any-point shapes
+            hist_str(out, h, d);
+        }
+        for c in alpha {
+            hist_char(out, h, c, true);
+        }
+    }
+    let mb = ['a', 'é', '锈', '🧠'];
+    for h in all_strings(&mb, 3).iter() {
+        for c in mb {
+            hist_char(out, h, c, true);
+        }
+    }
+    // long pieces around a block size, reversed midway
+    for n in [31usize, 32, 33, 64] {
+        let h = format!("{}-{}-{}", "z".repeat(n), "y".repeat(n + 1), "x".repeat(3));
+        hist_str(out, &h, "-");
+        hist_char(out, &h, '-', true);
+    }
+}
+
 pub fn run(cfg: &Cfg, out: &mut Out) {
     stress(cfg, out);
+    histories(cfg, out);
     // regression corpus: F1 shapes (overlap inside a failed partial match), leading/trailing/adjacent delimiters
     for (h, d) in [("aaab", "aab"), ("abbb", "abb"), (",a,,b,", ","), ("", "a"), ("", ""), ("ab", ""), ("éa锈", ""), ("aaa", "aa"), ("ababa", "aba")] {
         one_str(out, h, d);
